@@ -172,4 +172,6 @@ def run(ctx):
     ctx.guard("R17.3", "escaping", lambda: r17_3(ctx))
     ctx.guard("R17.4", "pairing", lambda: r17_4(ctx))
     ctx.guard("R17.5", "nf", lambda: nf_common.nf_rule(ctx, "R17.5", AREA, floor=18))
+    # the serializer keeps its prefix scopes in the tree builder's NamespaceMap type
+    ctx.guard("R17.5", "nf-namespace-map", lambda: nf_common.nf_rule(ctx, "R17.5", "xml_tree_builder", only=("NamespaceMap",), floor=4))
     ctx.guard("R17.5", "nf-rcdom", lambda: nf_common.nf_rule(ctx, "R17.5", "rcdom", only=("[Serialize]",)))
